@@ -323,10 +323,24 @@ def run(prog, chk):
             chk.ok("C12.d", f, "emit/%d: state test -> invoke -> invalidated test -> ++i" % (len(f.params) - 1), where, "dominating atoms + path search", evals=4)
         # normalised shape for the sibling comparison
         sh = []
+        # const copies of an iterator (`const Iterator last = activation.end;`) read as what they were copied from
+        copies = {}
+        for n_ in f.nodes:
+            if n_["k"] == "DeclStmt":
+                for d_ in n_["decls"]:
+                    if (d_.get("t") or "").startswith("const ") and d_.get("init") is not None:
+                        x_ = f.nodes[d_["init"]]
+                        while x_["k"] in ("CXXConstructExpr", "ImplicitCastExpr", "ExprWithCleanups", "MaterializeTemporaryExpr") and len([c_ for c_ in x_["c"] if c_ >= 0]) == 1:
+                            x_ = f.nodes[[c_ for c_ in x_["c"] if c_ >= 0][0]]
+                        if x_["k"] in ("MemberExpr", "DeclRefExpr"):
+                            copies[d_["n"]] = q.no_casts(f.r(x_["i"]))
         for b in sorted(f.blocks, reverse=True):
             blk = f.blocks[b]
             if blk.get("cond") is not None:
-                sh.append("if " + re.sub(r"MemberFuncPtr\d", "MemberFuncPtrN", fin.key(f, blk["cond"])))
+                t_ = q.no_casts(q.xr(f, blk["cond"]))
+                for nm_, src_ in copies.items():
+                    t_ = re.sub(r"(?<![\w>.])%s(?![\w])" % re.escape(nm_), src_, t_)
+                sh.append("if " + re.sub(r"MemberFuncPtr\d", "MemberFuncPtrN", t_))
         sh.append("calls=%d" % len(inv))
         shapes[f.sig] = " | ".join(sh)
     if len(set(shapes.values())) == 1:
